@@ -135,6 +135,11 @@ def universes(tier, purpose="opt"):
              dict(n=4, k=1, T=2, labels=XY),
              dict(n=4, k=2, T=2, labels=["x"], sym=True),
              dict(n=5, k=1, T=2, labels=XY, sym=True)]
+    if purpose == "backend":
+        # one representative per annotator permutation (the back-end sees the same ILP up to column order)
+        for u in U:
+            if "ks" not in u:
+                u["sym"] = True
     fams = []
     qs = [(3, 2), (3, 3), (4, 2), (5, 2), (2, 5)] if tier == "quick" else \
          [(3, 2), (3, 3), (3, 4), (4, 2), (4, 3), (5, 2), (2, 5), (2, 6), (2, 7)]
